@@ -116,16 +116,18 @@ fn lane_c12(part: usize, _parts: usize, seed: u64, n: usize, acc: &mut Acc) {
 fn lane_c02(part: usize, seed: u64, n: usize, acc: &mut Acc) {
     let mut r = rnd::rng(seed ^ (part as u64) << 16);
     for _ in 0..n {
-        let l = rnd::log_u128(&mut r, 128);
-        let p0 = rnd::sqrt_price(&mut r);
-        let pt = rnd::sqrt_price(&mut r);
-        let c = c02::StepIn { amount: rnd::hostile_u64(&mut r).max(1), rate: r.gen_range(0..=100_000), liquidity: l, p0, pt, exact_in: r.gen(), a_to_b: pt < p0 };
+        let c = c02::gen_case(&mut r);
         acc.evaluations += 1;
-        if let Ok(o) = whirlpool::math::compute_swap(c.amount, c.rate, c.liquidity, c.p0, c.pt, c.exact_in, c.a_to_b) {
-            let o = c02::StepOut { amount_in: o.amount_in, amount_out: o.amount_out, next_price: o.next_price, fee_amount: o.fee_amount };
-            if let Some((sig, d)) = c02::check_step(&c, &o) {
-                acc.violation(format!("lane:c02:{sig}"), d, c02::step_json(&c, Some(&o)));
+        match vcheck::svm::quiet_catch(|| whirlpool::math::compute_swap(c.amount, c.rate, c.liquidity, c.p0, c.pt, c.exact_in, c.a_to_b)) {
+            Ok(Ok(o)) => {
+                acc.count("ok");
+                let o = c02::StepOut { amount_in: o.amount_in, amount_out: o.amount_out, next_price: o.next_price, fee_amount: o.fee_amount };
+                if let Some((sig, d)) = c02::check_step(&c, &o) {
+                    acc.violation(format!("lane:c02:{sig}"), d, c02::step_json(&c, Some(&o)));
+                }
             }
+            Ok(Err(_)) => acc.count("err"),
+            Err(_) => acc.count("program_panicked"),
         }
     }
 }
